@@ -110,21 +110,27 @@ fn bprime_stack_region_for_every_sp_offset() {
     }
     // the stack pointer below the mapping (overflow into the guard gap): the region begins at the first plausible
     // stack mapping above it and is recorded at THAT address
-    for below in [8usize, 0x1ad8, 4096 * 3] {
-        let sp = base - below;
-        let mut config = MinidumpWriter::new(pid, pid);
-        let mut buffer = DumpBuf::with_capacity(0);
-        let mut thread = MDRawThread {
-            thread_id: pid as u32, suspend_count: 0, priority_class: 0, priority: 0, teb: 0,
-            stack: MDMemoryDescriptor::default(), thread_context: MDLocationDescriptor::default(),
-        };
-        fill_thread_stack(&mut config, &mut buffer, &dumper, &mut thread, 0, sp, MaxStackLen::None).expect("fill_thread_stack");
-        n += 1;
-        let st = thread.stack;
-        assert_eq!(st.start_of_memory_range as usize, base, "sp {below:#x} below the mapping: the region is recorded at the mapping start");
-        assert_eq!(st.memory.data_size as usize, 8192);
-        let img: &[u8] = &buffer;
-        assert_eq!(img[0], unsafe { *(base as *const u8) }, "bytes equal the memory at the recorded address");
+    // (with and without the 2 KiB limit: a shortened region still begins at the mapping start, whatever the gap)
+    for limited in [false, true] {
+        for below in [8usize, 0x7f8, 0x800, 0x801, 0x1000, 0x1ad8, 4096 * 3, 4096 * 3 + 0x900] {
+            let sp = base - below;
+            let mut config = MinidumpWriter::new(pid, pid);
+            let mut buffer = DumpBuf::with_capacity(0);
+            let mut thread = MDRawThread {
+                thread_id: pid as u32, suspend_count: 0, priority_class: 0, priority: 0, teb: 0,
+                stack: MDMemoryDescriptor::default(), thread_context: MDLocationDescriptor::default(),
+            };
+            let cap = if limited { MaxStackLen::Len(LIMIT_MAX_EXTRA_THREAD_STACK_LEN) } else { MaxStackLen::None };
+            fill_thread_stack(&mut config, &mut buffer, &dumper, &mut thread, 0, sp, cap).expect("fill_thread_stack");
+            n += 1;
+            let st = thread.stack;
+            assert_eq!(st.start_of_memory_range as usize, base, "sp {below:#x} below the mapping (limited {limited}): the region begins at the mapping start");
+            assert_eq!(st.memory.data_size as usize, if limited { 2048 } else { 8192 }, "sp {below:#x} below the mapping (limited {limited})");
+            let img: &[u8] = &buffer;
+            for k in [0usize, 1, st.memory.data_size as usize - 1] {
+                assert_eq!(img[k], unsafe { *((base + k) as *const u8) }, "bytes equal the memory at the recorded address");
+            }
+        }
     }
     println!("BPRIME evaluations={n}");
     std::mem::forget(dumper);
